@@ -74,22 +74,23 @@ class HmacRules:
         f = self.cmp
         where = '%s:%s' % (f['file'], f['line'])
         lens = sorted({h['gethlen'] for h in self.hashers.values() if 'gethlen' in h})
-        res_f, len_f = None, None
-        # which members does the compare read?  the result pointer and the length are the members the core writes
-        core_w = set()
-        for n in walk(self.core['body']):
-            if n['k'] == 'BinaryOperator' and n['op'] == '=':
-                l = strip(n['lhs'])
-                if l.get('k') == 'MemberExpr' and l.get('rec') == self.Hq:
-                    core_w.add(l['d'][2:])
-        for d in core_w:
+        res_f, len_f, res_is_array = None, None, False
+        # the result buffer and the length are the members of the class that the compare function reads: a byte pointer the core
+        # sets (or a byte array member the core fills), and a byte-sized count
+        read = set()
+        for n in walk(f['body']):
+            if n['k'] == 'MemberExpr' and n.get('rec') == self.Hq:
+                read.add(n['d'][2:])
+        for d in sorted(read):
             t = prog.type(next(x['t'] for x in self.H['fields'] if x['d'][2:] == d))
             if t.get('k') == 'ptr' and prog.type(t['to']).get('bits') == 8:
                 res_f = d
+            elif t.get('k') == 'array' and prog.type(t.get('el')).get('bits') == 8:
+                res_f, res_is_array = d, True
             elif t.get('k') == 'int' and t.get('bits') == 8:
                 len_f = d
         if res_f is None or len_f is None:
-            raise AnalysisBroken('result / length members of the tag computation not identified (writes: %s)' % sorted(core_w))
+            raise AnalysisBroken('result / length members of the tag computation not identified (compare reads: %s)' % sorted(read))
         RES = ('ext', 'computed')
         total = 0
         for L in lens:
@@ -99,6 +100,8 @@ class HmacRules:
                 def on_load(self, I, st, loc, val, node):
                     if loc is None:
                         return
+                    if res_is_array and loc[0] == HM and len(loc[1]) >= 2 and loc[1][-2] == res_f:
+                        loc = (RES, (loc[1][-1],))
                     for nm, obj in (('o', OUTB), ('r', RES)):
                         if loc[0] == obj and loc[1]:
                             x = loc[1][-1]
@@ -110,11 +113,12 @@ class HmacRules:
                                     st.comps['rd' + nm] = st.comps.get('rd' + nm, frozenset()) | set(range(x[1] * x[2], x[1] * x[2] + x[1]))
 
             def core_model(I, st, fr, n, this, args, an):
-                st.mem[(HM, (res_f,))] = P(RES, (0,))
+                if not res_is_array:
+                    st.mem[(HM, (res_f,))] = P(RES, (0,))
                 st.mem[(HM, (len_f,))] = C(L)
                 for i in range(L + 8):
                     st.sym['r%d' % i] = (0, 255)
-                    st.mem[(RES, (i,))] = sym('r%d' % i)
+                    st.mem[(HM, (res_f, i)) if res_is_array else (RES, (i,))] = sym('r%d' % i)
                 return [(st, ('void',))]
 
             def m_memcmp(I, st, fr, n, this, args, an):
